@@ -62,6 +62,7 @@ type round struct {
 	inflight map[string]int
 	maxIn    map[string]int
 	started  chan *invocation
+	cancels  map[string][]context.CancelFunc // contexts of the callers currently waiting, per image
 	rm       *packageimport.RequestManager
 	wg       sync.WaitGroup
 	ncallers atomic.Int64
@@ -119,7 +120,17 @@ func (rd *round) caller(id int, image string, generation int, rerequest int) {
 	rd.calls = append(rd.calls, rec)
 	rd.mu.Unlock()
 	rec.call = rd.clock.Add(1)
-	pkg, err := rd.rm.Pull(context.Background(), image)
+	// every caller brings its own cancellable context; the controller cancels the contexts of the callers waiting for an
+	// image while its pull is in flight (a reconcile that was abandoned) - the pull itself and later callers must not notice
+	ctx, cancel := context.WithCancel(context.Background())
+	defer cancel()
+	rd.mu.Lock()
+	if rd.cancels == nil {
+		rd.cancels = map[string][]context.CancelFunc{}
+	}
+	rd.cancels[image] = append(rd.cancels[image], cancel)
+	rd.mu.Unlock()
+	pkg, err := rd.rm.Pull(ctx, image)
 	rec.ret = rd.clock.Add(1)
 	rec.returned = true
 	switch {
@@ -203,6 +214,25 @@ func (rd *round) controller(done <-chan struct{}, lateProb int, delays []int) {
 					go rd.caller(nid, inv.image, 0, 0)
 				}
 			}
+			if inv.id%3 == 0 {
+				// abandon everybody who waits for this image right now, then let new callers arrive while the pull still runs
+				rd.mu.Lock()
+				cs := rd.cancels[inv.image]
+				rd.cancels[inv.image] = nil
+				rd.mu.Unlock()
+				for _, c := range cs {
+					c()
+				}
+				if len(cs) > 0 {
+					rd.c.Count("waiters_cancelled_during_pull", len(cs))
+					for i := 0; i < 3; i++ {
+						runtime.Gosched()
+					}
+					if late == 0 {
+						late = 2
+					}
+				}
+			}
 			launch(late / 2)
 			// token for the controller itself: callers are still blocked on the gate here, so
 			// the WaitGroup cannot have reached zero yet
@@ -228,6 +258,7 @@ func Run(c *vh.Ctx) {
 	c.GateCount("error_broadcasts", 20)
 	c.GateCount("late_joiner_shared", 5)
 	c.GateCount("callers", 1000)
+	c.GateCount("waiters_cancelled_during_pull", 100)
 	c.Finish("exploration",
 		"round = (images, callers, gate delays, late callers, re-requests, payload sizes) drawn from PRNG(seed,index), executed with real goroutines under -race; non-trivial = some invocation served >= 2 callers or an image was pulled more than once; distinct = distinct (callers per invocation, order of calls/returns) shapes",
 		[]string{
